@@ -121,7 +121,10 @@ def convert_key(key_pure, key, src_family=None):
   if f == "nan":
     return UNCONSTRAINED
   if key is None:
-    return None
+    # (the column's conversion is applied to the key: Bool turns a blank into False)
+    return False if key_pure == "Bool" else None
+  if key_pure == "Date" and f == "num":
+    return ("date", int(key // 86400))      # a timestamp stands for its UTC day
   if key_pure in NUMERIC_TYPES and f == "num":
     return key
   if key_pure in TEXT_TYPES and f == "str":
